@@ -69,8 +69,10 @@ class Builder:
             self.emit('            crate::vx_canary(%d) ==> false,' % len(self.canary_lines))
         if decreases:
             self.emit('        decreases %s' % decreases)
-    def verified_fn(self, f, name, within=None, requires=(), clauses=(), decreases=None, props=(), loops=None, blocks=None, extra_rules=(), fname=None, desugar_continue=False):
+    def verified_fn(self, f, name, within=None, requires=(), clauses=(), decreases=None, props=(), loops=None, blocks=None, extra_rules=(), fname=None, desugar_continue=False, pre=None, reveal=None):
         t, where = self._prep_fn(f, name, within, extra_rules)
+        if pre: t = pre(t, self.log, where)
+        if reveal is not None: t = self.reveal_literals(t, reveal, where)
         if desugar_continue: t = D.desugar_continue(t, self.log, where)
         sig, body = self._split_sig(t)
         sig = self._name_ret(sig)
@@ -212,6 +214,23 @@ class Builder:
         self._map_block_lines(first, fname)
         self.fn_ranges.append((first, self.lineno() - 1, fname, list(props), fname + '.safety'))
         self.obligations.append((fname + '.safety', list(props)))
+    def reveal_literals(self, t, extra, where):
+        """R2c (ghost only): Verus treats string literals as opaque; `reveal_strlit` for every literal of the function and of its spec
+        is inserted at the start of the body, mechanically (the literals are read from the text, so an edited literal is revealed too)."""
+        bo = L.body_open(t, 0)
+        lits, i = [], bo
+        while i < len(t):
+            k = L.skip_trivia_and_literals(t, i)
+            if k != i:
+                if t[i] == '"': lits.append(t[i:k])
+                i = k
+            else: i += 1
+        seen, out = set(), []
+        for l in list(lits) + list(extra):
+            if l not in seen: seen.add(l); out.append(l)
+        ghost = '\n        proof { ' + ' '.join('reveal_strlit(%s);' % l for l in out) + ' }'
+        self.log.add('R2c', where, '%d string literals' % len(out), 'reveal_strlit(..) ghost prologue')
+        return t[:bo + 1] + ghost + t[bo + 1:]
     def _map_block_lines(self, first, fname):
         bl = getattr(self, '_block_labels', {})
         if not bl: return
